@@ -387,6 +387,7 @@ pub enum CallErr {
     Dead,
 }
 
+#[derive(Clone)]
 pub struct PluginOpts {
     pub max_retry_time: u64,
     pub auto_retry_delay: u64,
@@ -685,6 +686,19 @@ async fn scenario_c05(seed: u64, id: u64, base: &Path, r: &mut PropReport) {
     let replay = json!({"engine":"e4","family":"c05","seed":seed,"scenario":id});
     let mut plugin = match Plugin::start(&dir, &opts).await {
         Ok(p) => p,
+        Err(e) if abort_at.is_some() => {
+            // the armed abort fired while the client was still starting up: that is a crash like any other,
+            // the client is started again on the same directory
+            r.count("aborts_during_startup", 1);
+            match Plugin::start(&dir, &PluginOpts { abort_at: None, ..opts.clone() }).await {
+                Ok(p) => p,
+                Err(e2) => {
+                    r.eval();
+                    r.violation("C05:restart-failed-after-abort-at-startup", format!("scenario {id}: the client died at start-up ({e}, armed abort) and did not start again on the same directory: {e2}"), replay.clone());
+                    return;
+                }
+            }
+        }
         Err(e) => {
             r.inconclusive += 1;
             r.note(format!("c05 scenario {id}: plugin did not start: {e}"));
